@@ -246,7 +246,13 @@ def build_and_export(case):
     m.a = h.Signal(width=widths["a"])
     m.b = h.Signal(width=widths["b"])
     m.bb = B()
-    m.i0 = src()
+    tie = case.get("tie")
+    if tie:
+        # the referenced port is itself wired to a run of bits of the bus `a`: a reference to it stands for those bits (seed C03-r8-1)
+        lo = tie["i0_q"][1]
+        m.i0 = src(q=m.a[lo : lo + widths["i0.q"]])
+    else:
+        m.i0 = src()
     # (a port of an ExternalModule instance: its width is looked up in a port list, not in a module)
     ext = h.ExternalModule(name="ExtSrc", port_list=[h.Port(name="q", width=widths.get("e0.q", 1))], paramtype=h.HasNoParams)
     m.e0 = ext()()
@@ -400,6 +406,26 @@ def concat_slice_family(quick=True):
                 yield {"tree": t, "widths": widths, "sinkw": len(b)}
 
 
+def tie_bits(bits, tie):
+    """the bits a tree denotes once a referenced port stands for the run of bus bits it is wired to"""
+    if not tie or bits is None:
+        return bits
+    return [((tie[n][0], tie[n][1] + i) if n in tie else (n, i)) for (n, i) in bits]
+
+
+def tied_ref_family():
+    """Exhaustive: every integer index and every unit-step range of a reference to a 4-bit port that is wired to a[lo:lo+4] of an 8-bit bus."""
+    widths = {"a": 8, "b": 1, "i0.q": 4, "bb.s": 1, "bb.sub.s": 1, "e0.q": 1}
+    leaf = {"k": "leaf", "kind": "pref", "n": "i0.q", "w": 4}
+    idxs = [{"i": i} for i in range(-4, 4)] + [{"s": a, "e": b, "st": None} for a in (None, -4, -2, 0, 1, 3) for b in (None, -1, 2, 4)]
+    for lo in (0, 2, 4):
+        for i in idxs:
+            t = {"k": "slice", "p": leaf, "i": i}
+            bits = py_bits(t)
+            if bits:
+                yield {"tree": t, "widths": widths, "sinkw": len(bits), "tie": {"i0_q": ["a", lo]}}
+
+
 def stream_b(ctx):
     rep, rng = ctx.rep, ctx.rng
     n = 400 if ctx.quick else 6000
@@ -412,14 +438,18 @@ def stream_b(ctx):
                   "e0.q": rng.randint(1, 5)}
         t = rand_tree(rng, rng.choice([1, 2, 2, 3, 3]), widths)
         bits = py_bits(t)
-        cases.append({"tree": t, "widths": widths, "sinkw": len(bits) if bits else 1})
+        case = {"tree": t, "widths": widths, "sinkw": len(bits) if bits else 1}
+        if widths["i0.q"] <= widths["a"] and rng.random() < 0.35:
+            case["tie"] = {"i0_q": ["a", rng.randint(0, widths["a"] - widths["i0.q"])]}
+        cases.append(case)
+    cases += list(tied_ref_family())
     impls = pmap(build_and_export, cases, chunk=16)
     outs = ctx.drv.run([{"prop": "C03", "op": "resolve", "conn": to_model(c["tree"])} for c in cases])
     stats = {"valid": 0, "invalid": 0, "exported": 0, "export_refused_stepped": 0}
     for c, impl, out in zip(cases, impls, outs):
         case = {"stream": "B", **c}
         bits = py_bits(c["tree"])
-        rep.count("B:nested", json.dumps(c["tree"]), nontrivial=c["tree"]["k"] != "leaf")
+        rep.count("B:nested", json.dumps([c["tree"], c.get("tie")]), nontrivial=c["tree"]["k"] != "leaf")
         # oracle: Lean `denote` is Python list semantics
         md = out["denote"].get("ok")
         if (md is None) != (bits is None) or (md is not None and [tuple(x) for x in md] != bits):
@@ -449,8 +479,9 @@ def stream_b(ctx):
         if "ok" in impl["export"]:
             stats["exported"] += 1
             got = [tuple(x) for x in impl["export"]["ok"]]
-            if got != bits:
-                rep.fail("pred", case, {"why": "exported connection selects other bits", "exported": got, "python": bits})
+            want = tie_bits(bits, c.get("tie"))
+            if got != want:
+                rep.fail("pred", case, {"why": "exported connection selects other bits", "exported": got, "python": want})
         else:
             stepped = "non-unit step" in impl["export"].get("msg", "")
             model_ok = "ok" in out["resolved"]
